@@ -306,7 +306,7 @@ class _Oracle:
         return None
 
 
-def site_body(kind, fast=True, norb=2):
+def site_body(kind, fast=True, norb=2, nn=False):
     """C10.cpmc.site.{fast,slow}: the REAL scan body of propagate (one site iteration, extracted from the traced jaxpr) maps an
     invariant state  greens = calc_full_green(walkers), overlaps = overlap(walkers)  to an invariant state with
     walkers' = D_x walkers, weights' = w * norm, norm = [O(D_0 phi) + O(D_1 phi)] / (2 O(phi)), and compares the uniform number
@@ -317,8 +317,11 @@ def site_body(kind, fast=True, norb=2):
     from ad_afqmc import wavefunctions as wf, propagation
     out = []
     nel = (1, 1)
-    pcls = propagation.propagator_cpmc if fast else propagation.propagator_cpmc_slow
-    which = "fast" if fast else "slow"
+    if nn:
+        pcls = propagation.propagator_cpmc_nn if fast else propagation.propagator_cpmc_nn_slow
+    else:
+        pcls = propagation.propagator_cpmc if fast else propagation.propagator_cpmc_slow
+    which = ("nn-" if nn else "") + ("fast" if fast else "slow")
     for site in range(norb):
         for bit in (1, 0):
             t0 = time.time()
@@ -333,7 +336,7 @@ def site_body(kind, fast=True, norb=2):
             inp.build()
             sp = inp.sp
             trial = getattr(wf, kind)(norb, nel)
-            prop = pcls(dt=0.05, n_walkers=1)
+            prop = pcls(dt=0.05, n_walkers=1, **({"neighbors": ((0, 1),)} if nn else {}))
             wave = dict(mo_coeff=[htu["V"], htd["V"]]) if kind == "uhf_cpmc" else dict(mo_coeff=ht["V"])
             leaves = lambda t, f: jax.tree_util.tree_map(f, t, is_leaf=lambda x: isinstance(x, H.V))
             wave_s, wave_x = leaves(wave, lambda v: v.s), leaves(wave, lambda v: jnp.asarray(v.x))
@@ -347,10 +350,14 @@ def site_body(kind, fast=True, norb=2):
             ov_arr[0] = O0
             pd_s = dict(walkers=[wu.s, wd.s], weights=hw["V"].s, overlaps=ov_arr, greens=G0[None], hs_constant=hh["V"].s,
                         pop_control_ene_shift=np.array(0.0), e_estimate=np.array(0.0))
+            if nn:
+                pd_s.update(hs_constant_onsite=hh["V"].s, hs_constant_nn=np.asarray(hh["V"].x), key=np.asarray(jax.random.PRNGKey(3)))
             Gx = trial.calc_full_green(jnp.asarray(wu.x[0]), jnp.asarray(wd.x[0]), wave_x)
             pd_x = dict(walkers=[jnp.asarray(wu.x), jnp.asarray(wd.x)], weights=jnp.asarray(hw["V"].x),
                         overlaps=jnp.asarray([trial._calc_overlap(jnp.asarray(wu.x[0]), jnp.asarray(wd.x[0]), wave_x)]).real,
                         greens=Gx[None], hs_constant=jnp.asarray(hh["V"].x), pop_control_ene_shift=jnp.asarray(0.0), e_estimate=jnp.asarray(0.0))
+            if nn:
+                pd_x.update(hs_constant_onsite=jnp.asarray(hh["V"].x), hs_constant_nn=jnp.asarray(hh["V"].x), key=jax.random.PRNGKey(3))
             ham_x = dict(exp_h1=jnp.array([jnp.eye(norb), jnp.eye(norb)]))
             ham_s = dict(exp_h1=np.array([np.eye(norb), np.eye(norb)]))
             fields_x = jnp.zeros((1, norb))
@@ -438,6 +445,198 @@ def site_body(kind, fast=True, norb=2):
                 mk("prob", pr, np.array([OD[0] / (OD[0] + OD[1])], dtype=object), "the uniform number is compared with O(D_0 phi)/(O(D_0 phi)+O(D_1 phi))")
             else:
                 out.append(ob(f"C10.cpmc.site.prob{tagp}", UNDECIDED, kind="bounded", detail=f"{len(oracle.probs)} probability comparisons seen"))
+    return out
+
+
+class _OracleSeq(_Oracle):
+    """like _Oracle, but the k-th comparison of a uniform number with an acceptance probability returns the k-th enumerated bit"""
+
+    def __init__(self, bits):
+        super().__init__(bits[0])
+        self.bits = list(bits)
+
+    def primitive(self, it, p, e, ins):
+        if p == "lt" and is_obj(ins[1]) and not is_obj(ins[0]) and not (np.ndim(ins[0]) == 0 and float(np.real(ins[0])) in (1.0e-8, 100.0)):
+            k = len(self.probs)
+            self.bit = self.bits[k] if k < len(self.bits) else self.bits[-1]
+        return super().primitive(it, p, e, ins)
+
+
+def bond_body(kind, fast=True, norb=2, bits=(1, 1, 1, 1)):
+    """C10.cpmc.bond.{fast,slow}: the REAL neighbour-bond scan body of the nearest-neighbour CPMC propagators (one bond = four consecutive
+    sub-steps up-up, up-dn, dn-up, dn-dn with the discrete field constants hs_constant_nn) maps an invariant state (greens = calc_full_green(walkers),
+    overlaps = overlap(walkers)) to an invariant state: after sub-step k the walkers are D^(k)_{x_k} phi_{k-1} (row site_i of the first spin channel
+    scaled by c[0], row site_j of the second by c[1]), weights pick up [O(D_0 phi) + O(D_1 phi)] / (2 O(phi)), and each uniform number is compared with
+    O(D_0 phi)/(O(D_0 phi) + O(D_1 phi)); enumerated field patterns `bits`; site loop and one-body halves passed through (cpmc.site.* / cpmc.K)."""
+    H.setup_repo()
+    import jax
+    import jax.numpy as jnp
+    from ad_afqmc import wavefunctions as wf, propagation
+    out = []
+    nel = (1, 1)
+    pcls = propagation.propagator_cpmc_nn if fast else propagation.propagator_cpmc_nn_slow
+    bond = (0, 1)
+    which = "fast" if fast else "slow"
+    for site in (0,):
+        for bit in (tuple(bits),):
+            t0 = time.time()
+            inp = H.Inputs(2)
+            hwu, hwd = inp.declare("wu", (1, norb, 1)), inp.declare("wd", (1, norb, 1))
+            hh = inp.declare("h", (2, 2))
+            # the neighbour-bond constants are exact rationals here (four chained rank-two updates with symbolic constants do not finish); their
+            # defining relations are the subject of cpmc.hs
+            HN = np.array([[Fraction(3, 2), Fraction(1, 2)], [Fraction(1, 2), Fraction(3, 2)]], dtype=object)
+            hw = inp.declare("wt", (1,))
+            if kind == "uhf_cpmc":
+                htu, htd = inp.declare("tu", (norb, 1)), inp.declare("td", (norb, 1))
+            else:
+                ht = inp.declare("t", (2 * norb, 2))
+            inp.build()
+            sp = inp.sp
+            trial = getattr(wf, kind)(norb, nel)
+            prop = pcls(dt=0.05, n_walkers=1, neighbors=(bond,))
+            wave = dict(mo_coeff=[htu["V"], htd["V"]]) if kind == "uhf_cpmc" else dict(mo_coeff=ht["V"])
+            leaves = lambda t, f: jax.tree_util.tree_map(f, t, is_leaf=lambda x: isinstance(x, H.V))
+            wave_s, wave_x = leaves(wave, lambda v: v.s), leaves(wave, lambda v: jnp.asarray(v.x))
+            wu, wd = hwu["V"], hwd["V"]
+            full_green = lambda a, b: evaluate(sp, trial.calc_full_green, (a, b, wave_s), (jnp.asarray(wu.x[0]), jnp.asarray(wd.x[0]), wave_x))[0]
+            overlap = lambda a, b: evaluate(sp, trial._calc_overlap, (a, b, wave_s), (jnp.asarray(wu.x[0]), jnp.asarray(wd.x[0]), wave_x))[0]
+            G0 = full_green(wu.s[0], wd.s[0])
+            O0 = overlap(wu.s[0], wd.s[0])
+            O0 = O0[()] if isinstance(O0, np.ndarray) else O0
+            ov_arr = np.empty((1,), dtype=object)
+            ov_arr[0] = O0
+            pd_s = dict(walkers=[wu.s, wd.s], weights=hw["V"].s, overlaps=ov_arr, greens=G0[None], hs_constant=hh["V"].s, hs_constant_onsite=hh["V"].s,
+                        hs_constant_nn=np.array([[sp.const(x) for x in row] for row in HN], dtype=object), key=np.asarray(jax.random.PRNGKey(3)), pop_control_ene_shift=np.array(0.0), e_estimate=np.array(0.0))
+            Gx = trial.calc_full_green(jnp.asarray(wu.x[0]), jnp.asarray(wd.x[0]), wave_x)
+            pd_x = dict(walkers=[jnp.asarray(wu.x), jnp.asarray(wd.x)], weights=jnp.asarray(hw["V"].x),
+                        overlaps=jnp.asarray([trial._calc_overlap(jnp.asarray(wu.x[0]), jnp.asarray(wd.x[0]), wave_x)]).real,
+                        greens=Gx[None], hs_constant=jnp.asarray(hh["V"].x), hs_constant_onsite=jnp.asarray(hh["V"].x), hs_constant_nn=jnp.asarray(np.array(HN, dtype=float)),
+                        key=jax.random.PRNGKey(3), pop_control_ene_shift=jnp.asarray(0.0), e_estimate=jnp.asarray(0.0))
+            ham_x = dict(exp_h1=jnp.array([jnp.eye(norb), jnp.eye(norb)]))
+            ham_s = dict(exp_h1=np.array([np.eye(norb), np.eye(norb)]))
+            fields_x = jnp.zeros((1, norb))
+            oracle = _OracleSeq(bit)
+            treedef = jax.tree_util.tree_structure(pd_x)
+            nleaf = treedef.num_leaves
+
+            # ---- spec of the four sub-steps (computed first: the Green's-function update callee is replaced by its contract below)
+            hN = np.array([[sp.const(x) for x in row] for row in HN], dtype=object)
+            steps = [((0, bond[0]), (0, bond[1])), ((0, bond[0]), (1, bond[1])), ((1, bond[0]), (0, bond[1])), ((1, bond[0]), (1, bond[1]))]
+            half = sp.const(0.5)
+
+            def scaled(w2, kk, st):
+                out2 = [w2[0].copy(), w2[1].copy()]
+                (s1, i1), (s2, i2) = st
+                out2[s1][i1, :] = out2[s1][i1, :] * kk[0]
+                out2[s2][i2, :] = out2[s2][i2, :] * kk[1]
+                return out2
+            cur = [wu.s[0].copy(), wd.s[0].copy()]
+            Ocur, wgt, want_probs, seq = O0, hw["V"].s[0], [], []
+            for st, bk in zip(steps, bit):
+                cand = [scaled(cur, hN[0], st), scaled(cur, hN[1], st)]
+                OD = []
+                for cnd in cand:
+                    v = overlap(cnd[0], cnd[1])
+                    OD.append(v[()] if isinstance(v, np.ndarray) else v)
+                want_probs.append(OD[0] / (OD[0] + OD[1]))
+                wgt = wgt * ((OD[0] + OD[1]) * half / Ocur)
+                ratio = (OD[0] if bk else OD[1]) / Ocur
+                cur = cand[0] if bk else cand[1]
+                Ocur = OD[0] if bk else OD[1]
+                seq.append(dict(st=st, consts=hN[0] if bk else hN[1], ratio=ratio, green=full_green(cur[0], cur[1])))
+            upd = dict(n=0, args_ok=[])
+
+            def h_update(it, e, ins):
+                """contract of update_greens_function (cpmc.update / cpmc.woodbury): for the pair and constants it is stated for, the updated Green's function is
+                the from-scratch Green's function of the scaled walker - applied only after checking the arguments the body passes"""
+                if len(e.outvars) != 1 or upd["n"] >= len(seq):
+                    return None
+                rec = seq[upd["n"]]
+                upd["n"] += 1
+                g_in, ratios, idx, uc = ins[0], ins[1], ins[2], ins[3]
+                ok = (not is_obj(idx)) and np.asarray(idx).tolist() == [list(rec["st"][0]), list(rec["st"][1])]
+                ucs = np.asarray(uc, dtype=object).reshape(-1) if is_obj(uc) else it.sym(np.asarray(uc)).reshape(-1)
+                ok = ok and len(ucs) == 2 and all((ucs[q] - (rec["consts"][q] - sp.const(1))).iszero() for q in range(2))
+                rr = np.asarray(ratios, dtype=object).reshape(-1) if is_obj(ratios) else it.sym(np.asarray(ratios)).reshape(-1)
+                ok = ok and len(rr) == 1 and (rr[0] - rec["ratio"]).iszero()
+                upd["args_ok"].append(bool(ok))
+                return [np.asarray(rec["green"], dtype=object)[None]]
+
+            def one_body(it, e, ins):       # contract of propagate_one_body with exp_h1 = identity is irrelevant here: pass the state through
+                outs = e.outvars
+                # outputs of propagate_one_body are the prop_data leaves (same pytree): return the matching inputs
+                k = len(ins) - len(outs)
+                cand = [x for x in ins]
+                # locate prop_data leaves among the inputs by shape signature (they come in pytree order)
+                res, j = [], 0
+                for ov in outs:
+                    while j < len(cand) and tuple(np.shape(cand[j])) != tuple(ov.aval.shape):
+                        j += 1
+                    res.append(cand[j])
+                    j += 1
+                return res
+
+            def scan_hook(it, e, ins):
+                P = e.params
+                consts, carry, xs = [list(t) for t in P["ft_in"].update(ins).unpack()]
+                if not (len(xs) == 1 and not is_obj(xs[0]) and np.asarray(xs[0]).dtype.kind in "iu"):
+                    return None          # a batching scan inside calc_overlap
+                if P["length"] == norb and P["length"] != 1:
+                    # the on-site loop: passed through (its body is the subject of cpmc.site.*)
+                    return list(carry) + [np.zeros(v.aval.shape, dtype=v.aval.dtype) for v in e.outvars[len(carry):]]
+                if P["length"] != 1:
+                    return None
+                cj = P["jaxpr"]
+                xi = [np.asarray(site, dtype=np.asarray(x).dtype) for x in xs]
+                it.scan_hook = None          # scans nested in the body (batching scans of calc_overlap) are ordinary scans
+                o = it.run(cj.jaxpr, cj.consts, list(consts) + list(carry) + xi)
+                c2, ys = [list(t) for t in P["ft_out"].update(o).unpack()]
+                raise _Captured(c2, ys)
+            try:
+                evaluate(sp, lambda hm, pdd, ff, wv: prop.propagate(trial, hm, pdd, ff, wv), (ham_s, pd_s, np.zeros((1, norb)), wave_s), (ham_x, pd_x, fields_x, wave_x),
+                         intercept=dict({"propagate_one_body": one_body}, **({"update_greens_function": h_update} if fast else {})), series=oracle, scan_hook=scan_hook,
+                         prim_hook={"select_n": oracle.select})
+                raise Unsupported("no site scan reached in propagate")
+            except _Captured as cap:
+                full = jax.tree_util.tree_leaves(pd_s, is_leaf=lambda x: isinstance(x, np.ndarray))
+                merged, j = [], 0
+                for leaf in full:        # loop-invariant leaves are hoisted out of the carry by JAX: match the rest in pytree order
+                    if j < len(cap.carry) and tuple(np.shape(cap.carry[j])) == tuple(np.shape(leaf)):
+                        merged.append(cap.carry[j])
+                        j += 1
+                    else:
+                        merged.append(leaf)
+                carry = jax.tree_util.tree_unflatten(treedef, merged) if j == len(cap.carry) else None
+            if carry is None:
+                raise Unsupported("scan carry is not the prop_data pytree")
+            # contract (the spec sequence was computed above)
+            G1 = full_green(cur[0], cur[1])
+            tagp = f"[{kind},{which},bond={bond[0]}-{bond[1]},x={''.join(map(str, bit))}]"
+            fns = [f"propagation.{pcls.__name__}.propagate", f"{WF}.{kind}.calc_overlap_ratio", f"{WF}.{kind}.update_greens_function"]
+            mk = lambda nm, got, want, note: out.append(H.identity(f"C10.cpmc.bond.{nm}{tagp}", got, want, functions=fns, inputs=inp, t0=t0, note=note))
+            mk("walkers", np.concatenate([np.asarray(carry["walkers"][0]).reshape(-1), np.asarray(carry["walkers"][1]).reshape(-1)]),
+               np.concatenate([cur[0].reshape(-1), cur[1].reshape(-1)]), "walkers after the four sub-steps = D^(4) D^(3) D^(2) D^(1) walkers (rows scaled by the chosen nn constants)")
+            mk("overlaps", np.asarray(carry["overlaps"]).reshape(-1), np.array([Ocur], dtype=object), "overlaps' = overlap(walkers')")
+            if fast:
+                mk("greens", np.asarray(carry["greens"]).reshape(-1), np.asarray(G1).reshape(-1), "greens' = calc_full_green(walkers')  (invariant re-established)")
+            mk("weights", np.asarray(carry["weights"]).reshape(-1), np.array([wgt], dtype=object), "weights' = w * prod_k [O(D_0 phi_k) + O(D_1 phi_k)] / (2 O(phi_k))")
+            if len(oracle.probs) == 4:
+                pr = np.array([np.asarray(p_, dtype=object).reshape(-1)[0] for p_ in oracle.probs], dtype=object)
+                mk("prob", pr, np.array(want_probs, dtype=object), "each uniform number is compared with O(D_0 phi)/(O(D_0 phi)+O(D_1 phi)) of ITS sub-step")
+            else:
+                out.append(ob(f"C10.cpmc.bond.prob{tagp}", UNDECIDED, kind="bounded", detail=f"{len(oracle.probs)} probability comparisons seen (4 expected)"))
+            if fast:
+                ao = upd["args_ok"]
+                out.append(ob(f"C10.cpmc.bond.update_args{tagp}", DISCHARGED if (len(ao) == 4 and all(ao)) else (REFUTED if ao and not all(ao) else UNDECIDED), kind="bounded", backend="ring",
+                              functions=fns, wall=time.time() - t0, witness=None if (len(ao) == 4 and all(ao)) else dict(args_ok=ao), witness_class="" if (len(ao) == 4 and all(ao)) else "update-arguments",
+                              detail=f"every Green's-function update is called with the pair of its sub-step, the chosen constants minus one and the overlap ratio of the chosen field value: {ao}"))
+            gd = oracle.guards
+            okg = len(gd) >= 8 and all(gd) if fast else (all(gd) if gd else True)
+            if fast:
+                out.append(ob(f"C10.cpmc.bond.constraint{tagp}", DISCHARGED if okg else (REFUTED if gd and not all(gd) else UNDECIDED), kind="bounded", backend="ring", functions=fns,
+                              wall=time.time() - t0, detail=f"each constrained-path test zeroes the ratio it tested (two per sub-step): {gd}", witness=None if okg else dict(guards=gd),
+                              witness_class="" if okg else "constraint-guards-other-field"))
     return out
 
 
@@ -619,7 +818,7 @@ def tail(cls_name="propagator_cpmc", kind="uhf_cpmc", norb=2):
     sp = inp.sp
     trial = getattr(wf, kind)(norb, nel)
     pcls = getattr(propagation, cls_name)
-    prop = pcls(dt=dt, n_walkers=nw)
+    prop = pcls(dt=dt, n_walkers=nw, **({"neighbors": ((0, 1),)} if "nn" in cls_name else {}))
     rng = np.random.default_rng(1)
     mo = [rng.normal(size=(norb, 1)), rng.normal(size=(norb, 1))]
     wave_x = dict(mo_coeff=[jnp.asarray(mo[0]), jnp.asarray(mo[1])]) if kind == "uhf_cpmc" else dict(mo_coeff=jnp.asarray(rng.normal(size=(2 * norb, 2))))
@@ -630,6 +829,9 @@ def tail(cls_name="propagator_cpmc", kind="uhf_cpmc", norb=2):
                 pop_control_ene_shift=np.array(E_shift), e_estimate=np.array(E_est))
     pd_x = dict(walkers=[jnp.asarray(hwu["V"].x), jnp.asarray(hwd["V"].x)], weights=jnp.asarray(hw["V"].x), overlaps=jnp.asarray(ov), greens=jnp.asarray(G),
                 hs_constant=jnp.asarray(hh["V"].x), pop_control_ene_shift=jnp.asarray(E_shift), e_estimate=jnp.asarray(E_est))
+    if "nn" in cls_name:
+        pd_s.update(hs_constant_onsite=hh["V"].s, hs_constant_nn=np.asarray(hh["V"].x), key=np.asarray(jax.random.PRNGKey(5)))
+        pd_x.update(hs_constant_onsite=jnp.asarray(hh["V"].x), hs_constant_nn=jnp.asarray(hh["V"].x), key=jax.random.PRNGKey(5))
     ham_x = dict(exp_h1=jnp.array([jnp.eye(norb), jnp.eye(norb)]))      # no scalar leaves: the one-body pass-through matches leaves by shape
     ham_s = dict(exp_h1=np.array([np.eye(norb), np.eye(norb)]))
     logs, seen = [], dict(scans=0, caps=0)
